@@ -198,7 +198,8 @@ def gen_block(rng, depth, budget, col1=False):
             m = rng.choice(FLAGS)
             if rng.random() < 0.8:
                 out.append(f"#undef {m}")
-            out.append(rng.choice([f"#define {m}", f"# define {m} 1", f"#define {m} 1 "]))
+            out.append(rng.choice([f"#define {m}", f"# define {m} 1", f"#define {m} 1 ", f"#define {m} '/'", f"#define {m} '/*'",
+                                   f"#define {m} '//' /* c */", f"#define {m} 'a/*b' 1", f"#define {m} '*/' + '/*'"]))
         elif r < 0.82:
             out.append("#undef " + rng.choice(FLAGS + VALS))
         elif r < 0.86:
